@@ -548,6 +548,24 @@ impl Fmt {
         b[11] = attr;
         b[14..16].copy_from_slice(&ct.to_le_bytes());
         b[16..18].copy_from_slice(&cd.to_le_bytes());
+        // what other systems leave in an entry: lower-case flags, creation time to 10 ms, the
+        // last-access date; now and then a creation time that was never recorded (all zero)
+        match self.rng.below(4) {
+            0 => {}
+            1 => {
+                b[12] = *self.rng.pick(&[0x08u8, 0x10, 0x18]);
+                b[13] = self.rng.below(200) as u8;
+                b[18..20].copy_from_slice(&md.to_le_bytes());
+            }
+            2 => {
+                b[13] = 1 + self.rng.below(199) as u8;
+                b[18..20].copy_from_slice(&cd.to_le_bytes());
+            }
+            _ => {
+                b[13] = 0;
+                b[14..18].copy_from_slice(&[0, 0, 0, 0]);
+            }
+        }
         if self.g.fat32 {
             b[20..22].copy_from_slice(&((cluster >> 16) as u16).to_le_bytes());
         }
